@@ -521,24 +521,22 @@ def select_polarity(repo: Repo) -> RuleRun:
         ok = nm in ("argmin", "min") or (nm in ("sorted", "argsort") and not any(k.arg == "reverse" for k in call.keywords))
         r.check(ok, gcs, f"closest side selected with {nm}", f"get_closest_side selects with {nm}: that is the farthest, not the closest face", call, key="get_closest_side")
     ga = repo.func("modify.reorient.viewpoint.ViewpointReorienter._get_aligned")
-    ret = [n for n in ast.walk(ga.node) if isinstance(n, ast.Return)]
-    r.require(len(ret) == 1 and isinstance(ret[0].value, ast.Subscript) and isinstance(ret[0].value.slice, ast.Slice), "_get_aligned: 'sorted(...)[slice]' idiom not recognised")
-    sub = ret[0].value
-    srt = sub.value
-    r.require(isinstance(srt, ast.Call) and attr_chain(srt.func) == "sorted", "_get_aligned: sorted() not found")
-    rev = False
-    for k in srt.keywords:
-        if k.arg == "reverse":
-            rev = bool(ast.literal_eval(k.value))
-    key = [k.value for k in srt.keywords if k.arg == "key"]
-    r.require(len(key) == 1 and any(isinstance(c, ast.Call) and (attr_chain(c.func) or "").endswith("dot") for c in ast.walk(key[0])), "_get_aligned: key is not a dot product")
-    sl = sub.slice
-    lo = ast.literal_eval(sl.lower) if sl.lower is not None else None
-    hi = ast.literal_eval(sl.upper) if sl.upper is not None else None
-    takes_last_two = lo == -2 and hi is None
-    takes_first_two = lo in (None, 0) and hi == 2
-    ok = (takes_last_two and not rev) or (takes_first_two and rev)
-    r.check(ok, ga, "two most aligned triangles taken", "ViewpointReorienter._get_aligned does not take the two MOST aligned triangles (ascending order needs [-2:])", ret[0], key="_get_aligned")
+    # abstract run: six triangles whose alignment with the viewing direction is 3, -5, 9, 0, 7, -1; the two most aligned ones
+    # (9 and 7) must come back, whatever way the selection is written
+    scores = [3, -5, 9, 0, 7, -1]
+    tris = [Obj(f"t{i}", normal=sc) for i, sc in enumerate(scores)]
+
+    def ahook(ev, call: ast.Call, name):
+        if (name or "").split(".")[-1] == "dot" and len(call.args) == 2:
+            vals = [ev.eval(a_) for a_ in call.args]
+            nums = [v for v in vals if isinstance(v, int)]
+            if len(nums) == 1:
+                return nums[0]
+        return NO_MATCH
+
+    res = _run(Evaluator(repo=repo, module=ga.module, call_hook=ahook), ga, [Obj("reorienter", cls=ga.cls), list(tris), Sym("direction")])
+    got = sorted(t.get("normal") for t in res) if isinstance(res, list) and all(isinstance(t, Obj) for t in res) else res
+    r.check(got == [7, 9], ga, "two most aligned triangles taken", f"ViewpointReorienter._get_aligned returns the triangles with alignment {got} out of {scores}; the two MOST aligned ones (7 and 9) make up a side", ga.node, key="_get_aligned")
     return r
 
 
